@@ -65,6 +65,7 @@ class Growth:
     diag_expr: ast.expr
     parent_expr: ast.expr
     via: str  # primitive or wrapper name
+    resets: bool = False  # the wrapper discards the parent's attractor data itself when the parent is not expanded yet
 
 
 class GrowthModel:
@@ -77,6 +78,7 @@ class GrowthModel:
         self.prog = prog
         # wrapper key -> (index of diagram param or -1 for receiver, parent param name, parent index)
         self.wrappers: dict[str, tuple[str, int]] = {}
+        self.resetting: set[str] = set()   # wrappers with a guarded full reset in front of their growth event
         self._compute()
 
     def _direct(self, fm: FuncModel) -> list[Growth]:
@@ -106,7 +108,7 @@ class GrowthModel:
                     parent = call_arg(n, pidx, pname)
                 if parent is None or diag is None or is_none(parent):
                     continue
-                out.append(Growth(fm, fm.cfgn(n), fm.f.stmt_of(n), n, diag, parent, callee.name))
+                out.append(Growth(fm, fm.cfgn(n), fm.f.stmt_of(n), n, diag, parent, callee.name, tgt in self.resetting))
         return out
 
     def events(self, fm: FuncModel) -> list[Growth]:
@@ -128,12 +130,40 @@ class GrowthModel:
                                       for x in own_walk(fm.f.node))
                         if rebound:
                             continue
-                        touches = any(
-                            e.kind == "store" and e.nid == p and (e.field == "expanded" or e.field in ATTR_FIELDS)
-                            for e in fm.field_events())
-                        if touches:
-                            continue
+                        touched = [e for e in fm.field_events() if e.kind == "store" and e.nid == p
+                                   and (e.field == "expanded" or e.field in ATTR_FIELDS)]
+                        resets = g.resets
+                        if touched:
+                            # the one accepted exception: the wrapper discards all attractor data of the parent under the
+                            # guard "parent not expanded yet", on every such path to its growth event
+                            from .. import logic
+                            okr = not any(e.field == "expanded" for e in touched)
+                            for e in touched:
+                                pc = fm.pc(e.cfgn)
+                                ga = logic.B(f"T:FIELD<{e.diag}|{p}|expanded>")
+                                if not (is_none(e.value) and ga[1] in logic.atoms(pc) and logic.implies(pc, logic.Not(ga))):
+                                    okr = False
+                            if okr:
+                                exp_true = []
+                                for bnode in fm.cfg.nodes:
+                                    if bnode.kind == "branch" and bnode.test is not None and bnode.id in fm.cfg.g:
+                                        tn = fm.cfg.nodes[next(iter(fm.cfg.g.predecessors(bnode.id)))]
+                                        ff = fm.formula(bnode.test, tn)
+                                        ff = ff if bnode.pol else logic.Not(ff)
+                                        ats = logic.atoms(ff)
+                                        if len(ats) == 1 and next(iter(ats))[1].endswith(f"|{p}|expanded>") and \
+                                                logic.implies(ff, ("atom", next(iter(ats)))):
+                                            exp_true.append(bnode)
+                                for fld in ATTR_FIELDS:
+                                    cuts = [e.cfgn for e in touched if e.field == fld] + exp_true
+                                    if g.cfgn.id in fm.cfg.reach_avoiding(fm.cfg.entry, cuts):
+                                        okr = False
+                            if not okr:
+                                continue
+                            resets = True
                         self.wrappers[fm.f.key] = (p, params.index(p))
+                        if resets:
+                            self.resetting.add(fm.f.key)
                         changed = True
                         break
 
